@@ -74,6 +74,19 @@ const HAND: &[(&str, &str)] = &[
         (func (export "drop_passive") elem.drop $pass)
         (func (export "reff") (result funcref) ref.func $f)
         (func (export "call") (param i32) (result i32) local.get 0 call_indirect (result i32)))"#),
+    // function references in CONSTANT expressions (global initialisers, expression items of active and passive element segments) must follow the
+    // renumbering of the functions: the small function is declared first, the round trip emits the big one first
+    ("ref-func-constants", r#"(module (table (export "t0") 4 funcref)
+        (func $small (result i32) i32.const 1) (func $mid (result i32) i32.const 2 i32.const 3 i32.add)
+        (func $big (result i32) i32.const 10 i32.const 20 i32.add i32.const 30 i32.add i32.const 40 i32.add)
+        (global $gs funcref (ref.func $small)) (global $gb (mut funcref) (ref.func $big))
+        (elem (i32.const 0) funcref (ref.func $small) (ref.func $big) (ref.func $mid))
+        (elem $p funcref (ref.func $mid) (ref.null func) (ref.func $small))
+        (func (export "call") (param i32) (result i32) local.get 0 call_indirect (result i32))
+        (func (export "via_global_small") (result i32) i32.const 3 global.get $gs table.set 0 i32.const 3 call_indirect (result i32))
+        (func (export "via_global_big") (result i32) i32.const 3 global.get $gb table.set 0 i32.const 3 call_indirect (result i32))
+        (func (export "swap") global.get $gs global.set $gb)
+        (func (export "init_passive") i32.const 1 i32.const 0 i32.const 3 table.init $p))"#),
     ("unused-things", r#"(module (memory 1) (global $unused (mut i64) (i64.const 9)) (func $dead_fn (result i32) i32.const 77)
         (func $helper (param i64) (result i64) local.get 0 i64.const 3 i64.mul) (func (export "f") (param i64) (result i64) local.get 0 call $helper)
         (func (export "sel") (param i32 i32 i32) (result i32) local.get 0 local.get 1 local.get 2 select))"#),
